@@ -2,6 +2,7 @@
 //@item src/bytewise/builder.rs type BytewiseNfaBuilder
 //@item src/bytewise/builder.rs struct DoubleArrayAhoCorasickBuilder
 //@include ghost_build_bw.rs
+//@include ghost_nfa.rs
 
 //@impl src/bytewise/builder.rs impl DoubleArrayAhoCorasickBuilder
 //@fn init_array
@@ -85,5 +86,96 @@
 //@}
 //@before 1 let idx = unused_base ^ u32::from(c);{
     proof { lemma_same_block(unused_base, c, h_lo(*helper), h_hi(*helper)); }
+//@}
+//@fn find_base
+//@rules R3own
+//@ret r
+//@head{
+    requires b_inv(*self, *helper), labels@.len() > 0
+    ensures r@ == self.states@.len()
+        || (h_active(*helper, r@ as int) && !h_used_base(*helper, r@ as int)
+            && forall|i: int| 0 <= i < labels@.len() ==> !h_used_index(*helper, (r@ ^ (#[trigger] labels@[i]) as u32) as int))
+//@}
+//@start{
+    proof { lemma_window(*helper); lemma_head(h_cells(*helper), helper.head_idx, h_lo(*helper), h_hi(*helper)); }
+//@}
+//@loop 1{
+    invariant vi_ok(verif_it1), verif_it1.list == helper, b_inv(*self, *helper), labels@.len() > 0,
+        h_lo(*helper) % 256 == 0, h_hi(*helper) % 256 == 0, 0 <= h_lo(*helper), h_hi(*helper) <= u32::MAX,
+    decreases (match verif_it1.idx { Some(x) => h_hi(*helper) - x, None => 0 })
+//@}
+//@before 1 let base = idx ^ u32::from(labels[0]);{
+    proof { lemma_same_block(idx, labels@[0], h_lo(*helper), h_hi(*helper)); }
+//@}
+//@fn extend_array
+//@rules R12x
+//@ret r
+//@head{
+    requires b_inv(*old(self), *old(helper))
+    ensures final(self).num_free_blocks == old(self).num_free_blocks, final(self).match_kind == old(self).match_kind,
+        match r {
+            Ok(_) => {
+                &&& b_inv(*final(self), *final(helper))
+                &&& final(self).states@.len() == old(self).states@.len() + 256
+                &&& final(helper).num_free_blocks == old(helper).num_free_blocks
+                &&& h_lo(*old(helper)) <= h_lo(*final(helper)) <= h_hi(*old(helper))
+                &&& forall|j: int| h_lo(*final(helper)) <= j < h_hi(*old(helper)) ==>
+                        h_used_index(*final(helper), j) == h_used_index(*old(helper), j) && h_used_base(*final(helper), j) == h_used_base(*old(helper), j)
+                &&& forall|j: int| h_hi(*old(helper)) <= j < h_hi(*final(helper)) ==> !h_used_index(*final(helper), j) && !h_used_base(*final(helper), j)
+                &&& forall|i: int| 0 <= i < old(self).states@.len() ==> (#[trigger] final(self).states@[i]).base == old(self).states@[i].base
+                        && final(self).states@[i].fail == old(self).states@[i].fail && st_opos(final(self).states@[i]) == st_opos(old(self).states@[i])
+                &&& forall|i: int| old(self).states@.len() <= i < final(self).states@.len() ==> (#[trigger] final(self).states@[i]).base.is_none()
+            },
+            Err(e) => e is AutomatonScale,
+        }
+//@}
+//@start{
+    let ghost h0 = *helper;
+    proof { lemma_window(h0); }
+//@}
+//@before 1 self.remove_invalid_checks(closed_block_idx, helper);{
+    proof { assert(closed_block_idx as int * 256 == h_lo(h0)); }
+//@}
+//@after 1 helper.push_block()?;{
+    let ghost s1 = self.states@;
+    proof {
+        lemma_window(*helper);
+        let nb = h0.num_blocks as int;
+        assert((nb + 1) * 256 == nb * 256 + 256) by (nonlinear_arith);
+        assert(h_hi(*helper) == h_hi(h0) + 256);
+    }
+//@}
+//@before 1 Ok(()){
+    proof {
+        assert(self.states@.len() == s1.len() + 256);
+        assert(forall|i: int| 0 <= i < s1.len() ==> self.states@[i] == s1[i]);
+        assert(forall|i: int| s1.len() <= i < self.states@.len() ==> (#[trigger] self.states@[i]).base.is_none());
+        assert(h_hi(h0) >= 256) by { assert(h0.num_blocks as int * 256 >= 256) by (nonlinear_arith) requires h0.num_blocks >= 1; }
+        assert forall|j: int| (j == 0 || j == 1) && h_active(*helper, j) implies h_used_index(*helper, j) by {
+            assert(h_active(h0, j));
+        }
+        assert(forall|i: int| 0 <= i < s1.len() ==> (#[trigger] s1[i]).base == old(self).states@[i].base);
+        assert(forall|i: int| 0 <= i < s1.len() ==> (#[trigger] s1[i]).base.is_some() ==> s1[i].base.unwrap()@ < s1.len());
+        assert(h_wf(*helper));
+        assert(self.states@.len() == h_hi(*helper));
+        assert forall|i: int| 0 <= i < self.states@.len() implies ((#[trigger] self.states@[i]).base.is_some() ==> self.states@[i].base.unwrap()@ < self.states@.len()) by {
+            if i < s1.len() { assert(self.states@[i] == s1[i]); }
+        }
+        assert(b_inv(*self, *helper));
+        assert(h_lo(h0) <= h_lo(*helper) <= h_hi(h0));
+        assert(forall|j: int| h_lo(*helper) <= j < h_hi(h0) ==>
+                        h_used_index(*helper, j) == h_used_index(h0, j) && h_used_base(*helper, j) == h_used_base(h0, j));
+        assert(forall|j: int| h_hi(h0) <= j < h_hi(*helper) ==> !h_used_index(*helper, j) && !h_used_base(*helper, j));
+        assert forall|i: int| 0 <= i < old(self).states@.len() implies (#[trigger] self.states@[i]).base == old(self).states@[i].base
+                        && self.states@[i].fail == old(self).states@[i].fail && st_opos(self.states@[i]) == st_opos(old(self).states@[i]) by {
+            assert(self.states@[i] == s1[i]);
+        }
+    }
+//@}
+//@fn build_double_array
+//@rules R9 R6b R13 R7 R5
+//@ret r
+//@head{
+    requires old(self).states@.len() == 0, old(self).num_free_blocks >= 1, nfa_tree(*nfa)
 //@}
 //@endimpl
